@@ -242,3 +242,50 @@ def run(ctx, res):
     vals = cg.global_funcs.get("my_crc32c", set())
     res.check(vals <= {"my_crc32c_sse42", "my_crc32c_slicing", "my_crc32c_first"}, "C14.R4", "my_crc32c:targets",
               "dispatch targets are the two implementations (and the first-call trampoline)", "unexpected dispatch target %s" % sorted(vals))
+
+
+    # ---- R5 a job handed to the pool holds no pointer into a buffer its dispatcher goes on using ------------------------
+    # On the paths of every function that dispatches a job: the record handed over (directly, or copied to the heap first)
+    # may hold, in its pointer members, fresh allocations, buffers detached from their builder (out-values of a call),
+    # and objects moved out of the dispatcher (the member they were read from is overwritten before the function
+    # returns) - but never the interior pointer of a vector (`ubuf_data(X)`, `..._vec_data(X)`, `..._ptr(X)`) that the
+    # dispatcher keeps: the caller's next add rewrites (or reallocates) those bytes while the job reads them.
+    res.floor("C14.R5", 2)
+    ndisp = 0
+    for f in prog.lib_funcs():
+        if not f.calls("threadpool_dispatch") or f.name == "threadpool_dispatch":
+            continue
+        res.saw(f)
+        for p in APE.run(prog, cg, f, bound=APE.BOUND).paths:
+            evs = [e for e in p.events if e.kind != "branch"]
+            for i, e in enumerate(evs):
+                if e.kind != "call" or e.a != "threadpool_dispatch" or len(e.b) < 5:
+                    continue
+                ndisp += 1
+                arg = e.b[4]
+                # the record: the argument itself, or what was copied into it
+                srcs = set()
+                for x in evs[:i]:
+                    if x.kind == "call" and x.a in ("memcpy", "__builtin_memcpy") and x.b and x.b[0] == arg and APE.vstr(x.b[1]).startswith("&"):
+                        srcs.add(APE.vstr(x.b[1])[1:])
+                objs = srcs | {strip_tags(APE.vstr(arg))}
+                bad = []
+                for x in evs[:i]:
+                    if x.kind != "store" or x.b[0] != "s":
+                        continue
+                    m_ = re.match(r"^(.*)(?:->|\.)(\w+)$", strip_tags(x.a))
+                    if not m_ or m_.group(1) not in objs:
+                        continue
+                    mv = re.match(r"^(\w+_(?:data|ptr))\((.*?)\)(?:[#@]\d+)?$", APE.vstr(x.b))
+                    if not mv:
+                        continue
+                    owner = strip_tags(mv.group(2))
+                    moved = any(y.kind == "store" and strip_tags(y.a) == owner for y in evs[i:]) or any(y.kind == "store" and strip_tags(y.a) == owner for y in evs[:i] if evs.index(y) > evs.index(x))
+                    if not moved:
+                        bad.append((m_.group(2), APE.vstr(x.b)))
+                res.check(not bad, "C14.R5", site(f, "job-owns-its-buffers"), "the job record holds allocations, detached buffers or moved objects only",
+                          "the job handed to the pool keeps %s, a pointer into a buffer the dispatching thread goes on modifying: the job reads it while the "
+                          "caller's next operation rewrites or reallocates it (data race / use after free)" % ", ".join("%s = %s" % b_ for b_ in bad[:2]),
+                          f.loc(e.node), p.describe(f))
+    if ndisp == 0:
+        raise BrokenAnalysis("no dispatch of a job to the pool found on any path")
